@@ -438,12 +438,19 @@ func (s *Scheduler) run(emitter Emitter, freq time.Duration) {
 		// If no jobs are ready, this leaves `readyc` as nil. Trying
 		// to insert into a nil channel never resolves so the select
 		// will never pick that path.
+		//
+		// Don't hand out more jobs than there are workers: a worker
+		// that posted its result to donec is free to take another job
+		// before we have read that result. Without this bound, donec
+		// (capacity = concurrency) can fill up, and workers blocked on
+		// it are never released if we return early because of a
+		// failure.
 		readyc := s.readyc
 		var (
 			nextEl *list.Element
 			next   *ScheduledJob
 		)
-		if ready.Len() > 0 {
+		if ready.Len() > 0 && ongoing < s.concurrency {
 			nextEl = ready.Front()
 			next = nextEl.Value.(*ScheduledJob)
 		} else {
